@@ -2,6 +2,8 @@
 import sys
 from common import *  # noqa
 import rewire_common as rc
+import randbin_corr
+sys.path.insert(0, os.path.join(VERIF, 'translate')); import kernels
 
 PID = 'C01'
 PREDS = {'out-degree', 'in-degree', 'weight-multiset', 'diagonal', 'symmetry', 'out-strength',
@@ -20,7 +22,14 @@ def main():
                       'performed at least one rewiring (eff>0 / output differs from input)')
     ck.assumptions += ['inputs have an empty diagonal and two vertex-disjoint edges (property quantifier)',
                        'calls that hit the watchdog (rejection loops that cannot terminate) are counted as timeouts, not violations']
-    ok = ck.lean_gate(['BctVerif.Props.C01'], extra_modules=['BctVerif.Model.Rewire'], gen_modules=['BctVerif.Gen.Kernels'] if os.path.exists(module_file('BctVerif.Gen.Kernels')) else [])
+    # T-gen: re-extract the literal swap kernels from /repo's current source; their obligations are gated
+    # separately so that a failing generated obligation does not hide the correspondence result
+    ck.cov['kernels'] = kernels.generate()
+    for p_ in ck.cov['kernels']['problems']:
+        ck.corr_break('kernel extractor (translate/kernels.py)', p_)
+    ok = ck.lean_gate(['BctVerif.Props.C01', 'BctVerif.Props.C01Kernel', 'BctVerif.Props.C01RandBin'],
+                      extra_modules=['BctVerif.Model.Rewire', 'BctVerif.Model.Kernel', 'BctVerif.Model.RandBin'])
+    ck.lean_gate([], gen_modules=['BctVerif.Gen.Kernels'])
     if ck.tier == 'thorough' and ok:
         ck.leanchecker(['BctVerif.Props.C01', 'BctVerif.Model.Rewire'])
     if ck.replay:
@@ -61,6 +70,8 @@ def main():
             ck.count('correspondence_cases', len(outs)); ck.count('correspondence_disagreements', nd)
         except DriverError as e:
             ck.corr_break('Rewire driver', str(e))
+    if ok:
+        randbin_corr.correspond(ck, cases, results)
     ck.finish()
 
 
